@@ -20,6 +20,11 @@ SEEDS = {
  'C14a': ('C14', 'puml parse_row_right: action length clamped to 0 when the guard is written before the action list', 'a transition line of the form  A -> B : ev [guard] / action'),
  'C15a': ('C15', 'ShallowHistoryImpl::operator=: remembered states loaded from the source\'s initial states', 'copy of a machine whose history region was left in a non-initial state, followed by a history re-entry'),
  'C16a': ('C16', 'history policies: serialize no longer archives m_initialStates (the memory of AlwaysHistory)', 'AlwaysHistory submachine left in a non-initial state, saved, restored, re-entered'),
+ 'C06b': ('C06', 'backmp11 favor_compile_time state_dispatch_table::dispatch: the submachine result is kept in a separate local, the outer result restarts from FALSE', 'event matching only guard-rejected rows inside an active composite (favor_compile_time)'),
+ 'C10b': ('C10', 'back process_event_internal: completion event issued before the busy mark is cleared', 'completion-source state entered by an event while another event is pending (queued, nested or deferred)'),
+ 'C11b': ('C11', 'back process_event_internal: blocking test skipped for events re-dispatched from the deferred queue', 'deferred event pending when a terminate / interrupt state becomes active'),
+ 'C14b': ('C14', 'puml parse_row_right: action length clamped to 0 when the guard precedes the action list (same edit as C14a, found independently)', 'a transition line of the form  A -> B : ev [guard] / action'),
+ 'C15b': ('C15', 'backmp11 event_occurrence: user-provided copy constructor that forgets m_marked_for_deletion', 'machine copied right after a LIMITED pool drain (process_event_pool(n)) - the copy replays the processed occurrence'),
  'C17a': ('C17', 'back is_flag_active fold: wrong early break', '>= 3 regions where regions 0 and 1 agree and a later one differs'),
  'C18a': ('C18', 'back defer_event_kleene_helper: binds the functor argument ev (default-constructed type carrier) instead of any_cast<Event>(m_event)', 'Kleene row that defers (front::Defer) an event whose payload differs from a default-constructed one'),
  'C02b': ('C02', 'backmp11 state_visitor_impl active visit: loops interchanged (state list outer, regions inner)', 'exit of a multi-region machine while an earlier region is in a state with a larger id than a later region'),
